@@ -132,7 +132,7 @@ def judge(req, impl, f, prev):
 
 
 SPEC = dict(
-    prop='C09', lean_mod='Rivia.Props.C09', gen=gen, judge=judge,
+    prop='C09', lean_mod='Rivia.Props.C09,Rivia.Props.C08S', gen=gen, judge=judge,
     foreign_classes=('chmod_zero', 'empty_lines_noop', 'listing_includes_links', 'sym_kind_specific_clauses', 'sym_malformed', 'moved_link_rel_stale'),
     rule='all ordered (source, destination) pairs over the namespace {a,b} x depth 2 (+ a fresh name) on three trees (files, dirs, links, modes) with four Copier option sets, and move_p for the same pairs; tree-heavy random histories. '
          'Judge: move_p against the reference tree filesystem (success = subtree re-keyed, failure = nothing changes); copy (no follow) against the property predicate evaluated on the before/after trees: source untouched, every source entry present at '
